@@ -323,7 +323,7 @@ def run(ctx: Ctx, pool, col=None):
                    {"kind": "bind", "signature": s.text(), "ret": s.ret(), "call": call_text(c), "caller": "native", "opt": opt,
                     "compiled": comp, "cpython": interp})
     ctx.coverage["bind_compiled_vs_model_of_compiled_disagreements"] = len(model_bad)
-    if model_bad and not ctx.violations:
+    if model_bad:
         sg, c, comp, ml = model_bad[0]
         violation_nf(ctx, "bind-model", f"compiled wrapper of `def f({sg.text()})` called f({call_text(c)}) gives {comp[:100]}, the model of "
                      f"the compiled binding (PyBind on Sig.asCompiled) says {ml}; every difference from CPython seen is a listed one",
